@@ -183,7 +183,7 @@ prop('C12', units=['ls'], level='proof', relevant=r'^unit::vfs::',
 
 prop('C13', units=['dg'], level='proof',
      bounded=[dict(test='c13_faults', covers='the semantic half of C13 (type checker spread over check_template_args, FieldDef/FieldLet, can_be_casted_to, bang_operator.rs): a whole-program judgement outside function contracts',
-                   bound='a fixed corpus written from the property statement: 2 well-formed programs (one with an include) must be diagnostic-free; 15 single-fault programs (undefined class / multiclass / identifier - also as a later list element, after a bare $name in a dag, pasted onto a def name - / include, missing and surplus template argument, type-incompatible argument / initialiser / override, wrong operator arity, syntax error) and 1 fault in an included file must be diagnosed at the seeded site, in the seeded file only')],
+                   bound='a fixed corpus written from the property statement: 2 well-formed programs (one with an include) must be diagnostic-free; 27 single-fault programs (undefined class / multiclass / identifier - also as a later list element, after a bare $name in a dag, pasted onto a def name - / include, missing and surplus template argument, type-incompatible argument / initialiser / override, wrong operator arity, syntax error) and 1 fault in an included file must be diagnosed at the seeded site, in the seeded file only')],
      explanation=('Unit DG (the merge step only): Verus proves on the real text of ide::handlers::diagnostics::exec that the per-file map of diagnostics contains, for EVERY file of the workspace '
                   '(root or included), every syntax error of that file\'s parse, filed under that file with the error\'s range; every diagnostic of the indexer, filed under the file it lies in; '
                   'an entry (possibly empty) for every workspace file; and that every stored diagnostic sits under its own file (the grouping unit LS assumes when it converts them). The closure '
